@@ -17,6 +17,11 @@ case = {
             fresh | re (last j known observations re-stated + k new) | ov (same, known ones REVISED) |
             past (j revised observations ending before the cutoff) | empty   (see `batch`)
             ["m"] = probe of the series the (best) forecaster remembers
+  "X":      absent/None | number of exogenous columns: tuner.fit(y, X, fh), evaluate(.., y, X, ..), update-type ops get the
+            matching rows of X; the score-controlled forecaster's forecasts (hence CV scores) and the reduction forecaster
+            (family `reduce`) depend on the X they were given;  ["x"] = probe of the exogenous data the (best) forecaster remembers
+  grid values "#SF.a.b" | "#Sh.c" | "#N.strategy.window_length" | "#P.degree" are ESTIMATOR OBJECTS (whole-component
+            replacement, `step=<estimator>`), possibly next to nested `step__param` names of the same component
   "tab":    {"a,b": [score per fold (float | None = NaN), ...]}   chosen scores of the score-controlled forecasters
 }
 The driver line carries, per distinct parameter set: the per-fold scores of an INDEPENDENT evaluate() run of a
@@ -51,19 +56,27 @@ OBLIGATIONS = [
     "SkVerif.C08.no_refit_raises_NotFitted",
     "SkVerif.C08.unfitted_tuner_raises_NotFitted",
     "SkVerif.C08.failed_fit_leaves_unfitted",
+    "SkVerif.C08.replaced_component_receives_nested_params",
+    "SkVerif.C08.nested_param_unknown_to_new_component_rejected",
 ]
 TRUSTED = ["hand-written model SkVerif/Model/Tune.lean of _tune.py (candidate order, mean, rank, argmin, best_*, refit, guards, delegation)",
            "evaluate() is an interface here (per-fold scores of a candidate; modelled under C07): the line carries the scores of an independent real evaluate() run per parameter set",
            "the base forecaster is a parameter of the theorems; in the correspondence it is the table of results of directly constructed real forecasters",
            "sklearn ParameterGrid order is modelled; ParameterSampler output is taken as data; _check_param_grid is the compat emulation (modelled, not verified)",
-           "pandas Series.rank(method='average') / argmin / DataFrame.mean(skipna) as documented (modelled)"]
+           "pandas Series.rank(method='average') / argmin / DataFrame.mean(skipna) as documented (modelled)",
+           "hand-written model SkVerif/Model/TuneSetParams.lean of sktime/base/_meta.py _set_params (component replacement, then own and nested "
+           "parameters on the current components; structured keys), exercised by the `setp` correspondence cases; BaseEstimator.set_params of the components is an interface (valid names = constructor arguments)"]
 ASSUMPTIONS = ["n_jobs=None (sequential backend): the first failing candidate's exception propagates",
                "scores are compared as exact rationals of the floats evaluate() returned; means within 1e-9",
                "base forecasters obey C04 (guarded methods of an unfitted forecaster raise NotFittedError) -- hypothesis hwb of the bisimulation",
-               "X and fit_params are passed through unchanged and are not exercised"]
+               "exogenous X is exercised (fit / evaluate / update-type calls; forecasters whose state and forecasts depend on it); "
+               "predict is called without X; extra **fit_params are not exercised"]
 RULE = ("exhaustive small scope: every vector of chosen mean scores over {0,1,2,NaN} for 1..4 candidates x both metric directions "
         "(quick: seed-rotated tenth) + structured random (6 forecaster families incl. nested names through TransformedTargetForecaster / "
-        "MultiplexForecaster, grid lists, randomized search, refit on/off, both evaluate strategies, op sequences with repeated fit) + malformed stream; "
+        "MultiplexForecaster, grid lists, randomized search, refit on/off, both evaluate strategies, op sequences with repeated fit) "
+        "+ grids whose values are estimator objects replacing a named component together with nested names of that component "
+        "+ exogenous X given to fit/update with forecasters that learn from it (incl. the tabular reduction forecaster) "
+        "+ clone(composite).set_params(**params) on its own (any dict order, invalid names) + malformed stream; "
         "distinct by driver line; non-trivial = the search completed with at least two candidates")
 LEVEL_TEXT = ("Lean 4 theorems, for all candidate lists / grids, score functions (NaN allowed), metric directions, base forecasters (abstract machine) and "
               "call sequences, about an executable model of _tune.py: the grid enumerates every combination once, every candidate is evaluated on the tuner's cv "
@@ -81,7 +94,7 @@ BOOM_B = 7      # ScoreForecaster(b=7).fit fails on the WHOLE series only (refit
 BOOM_A = 9      # ScoreForecaster(a=9).fit fails on any shorter series (failure inside evaluate)
 EXTRA = 14      # observations after the training series, consumed by update ops
 
-CTX = {"tab": {}, "n": 0, "cut2fold": {}, "splitlog": [], "y": None}
+CTX = {"tab": {}, "n": 0, "cut2fold": {}, "splitlog": [], "y": None, "objtok": {}, "objs": []}
 _K = {}
 
 
@@ -120,9 +133,12 @@ def K():
             if k is not None:
                 tab = CTX["tab"].get("%d,%d" % (self.a, self.b))
                 v = default_score(self.a, self.b) if not tab else tab[k % len(tab)]
+                if v is not None and self._X is not None:
+                    v = float(v) + float(self._X.iloc[-1, 0])          # depends on the exogenous data it was given
                 vals = [np.nan if v is None else float(v)] * len(labels)
             else:
-                vals = [self.a * 64.0 + self.b * 8.0 + cutoff + (int(l) - cutoff) / 4.0 + len(self._y) / 4096.0 for l in labels]
+                xt = 0.0 if self._X is None else float(self._X.iloc[-1].sum()) + len(self._X) / 2048.0
+                vals = [self.a * 64.0 + self.b * 8.0 + cutoff + (int(l) - cutoff) / 4.0 + len(self._y) / 4096.0 + xt for l in labels]
             return pd.Series(vals, index=labels)
 
     class ShiftTransformer(_SeriesToSeriesTransformer):
@@ -169,7 +185,8 @@ def default_score(a, b):
 # ----------------------------------------------------------------------------- case pieces
 def cerr(e):
     s = canon_err(e)
-    return "E:other" if s.startswith("E:other") else s
+    # the model's error alphabet; every other kind (NotImplementedError of a forecaster that refuses X, ...) is "other"
+    return s if s in ("E:value", "E:type", "E:key", "E:index", "E:attr", "E:notfitted") else "E:other"
 
 
 def tryc(f):
@@ -180,6 +197,8 @@ def tryc(f):
 
 
 def vtok(v):
+    if id(v) in CTX["objtok"]:            # an estimator object of the grid: named by the token it was built from
+        return CTX["objtok"][id(v)]
     if isinstance(v, bool):
         return "T" if v else "F"
     if v is None:
@@ -204,6 +223,17 @@ def series(case):
     return Y.iloc[:n], Y
 
 
+def exog(case):
+    """exogenous data over the index of the whole series (training part + continuation), or None"""
+    k = case.get("X")
+    if not k:
+        return None
+    r = random.Random(case["yseed"] * 7 + 3)
+    n, origin = case["n"], case.get("origin", 0)
+    idx = pd.Index(np.arange(origin, origin + n + EXTRA, dtype="int64"))
+    return pd.DataFrame({"x%d" % j: [r.randrange(-16, 17) / 4.0 for _ in range(n + EXTRA)] for j in range(k)}, index=idx)
+
+
 def make_cv(case, recording):
     from sktime.forecasting.model_selection import SlidingWindowSplitter, ExpandingWindowSplitter
     c = case["cv"]
@@ -218,44 +248,99 @@ def make_cv(case, recording):
 
 KEYS = {
     "score": {"a", "b"},
-    "ttf": {"f__a", "f__b", "t__c"},
-    "mux": {"selected_forecaster", "x__b", "y__b"},
     "naive": {"strategy", "sp", "window_length"},
-    "ttfnaive": {"f__strategy", "f__window_length", "t__c"},
-    "muxreal": {"selected_forecaster", "naive__strategy", "poly__degree"},
+    "reduce": {"window_length", "estimator__fit_intercept"},
 }
 CONTROLLED = ("score", "ttf", "mux")
+# composite families: the named components of the base forecaster (as estimator tokens)
+STEPS = {
+    "ttf": [("t", "#Sh.1"), ("f", "#SF.0.0")],
+    "mux": [("x", "#SF.1.0"), ("y", "#SF.2.0")],
+    "ttfnaive": [("t", "#Sh.1"), ("f", "#N.last.4")],
+    "muxreal": [("naive", "#N.last.None"), ("poly", "#P.1")],
+}
+CTOR = {"SF": ("a", "b"), "Sh": ("c",), "N": ("strategy", "window_length", "sp"), "P": ("degree",)}
+
+
+def is_objtok(v):
+    return isinstance(v, str) and v.startswith("#")
+
+
+def tok_args(tok):
+    """class and constructor arguments an estimator token stands for"""
+    parts = tok[1:].split(".")
+    cls = parts[0]
+    if cls == "SF":
+        return cls, {"a": int(parts[1]), "b": int(parts[2])}
+    if cls == "Sh":
+        return cls, {"c": int(parts[1])}
+    if cls == "N":
+        return cls, {"strategy": parts[1], "window_length": None if parts[2] == "None" else int(parts[2]), "sp": 1}
+    if cls == "P":
+        return cls, {"degree": int(parts[1])}
+    raise ValueError(tok)
+
+
+def mkobj(cls, args):
+    from sktime.forecasting.naive import NaiveForecaster
+    from sktime.forecasting.trend import PolynomialTrendForecaster
+    k = K()
+    return {"SF": k["SF"], "Sh": k["Shift"], "N": NaiveForecaster, "P": PolynomialTrendForecaster}[cls](**args)
+
+
+def grid_obj(tok):
+    """a fresh estimator object for a grid value; remembered by identity so that rows / best_params_ can be named"""
+    o = mkobj(*tok_args(tok))
+    CTX["objs"].append(o)
+    CTX["objtok"][id(o)] = tok
+    return o
 
 
 def build(fc, params):
-    """a forecaster constructed DIRECTLY from constructor arguments (no clone, no set_params)"""
+    """a forecaster constructed DIRECTLY from constructor arguments (no clone, no set_params).
+    For a composite: every named component is the estimator the parameter set names for it (else the base
+    forecaster's), constructed with the nested `component__param` values of the parameter set in place of its own."""
     from sktime.forecasting.naive import NaiveForecaster
-    from sktime.forecasting.trend import PolynomialTrendForecaster
     from sktime.forecasting.compose import TransformedTargetForecaster, MultiplexForecaster
     k = K()
-    SF, Shift = k["SF"], k["Shift"]
-    bad = set(params) - KEYS[fc]
+    g = params.get
+    if fc in KEYS:
+        bad = set(params) - KEYS[fc]
+        if bad:
+            raise ValueError("Invalid parameter %s" % sorted(bad))
+        if fc == "score":
+            return k["SF"](a=g("a", 0), b=g("b", 0))
+        if fc == "naive":
+            return NaiveForecaster(strategy=g("strategy", "last"), sp=g("sp", 1), window_length=g("window_length", None))
+        if fc == "reduce":
+            from sklearn.linear_model import LinearRegression
+            from sktime.forecasting.compose import DirectTabularRegressionForecaster
+            return DirectTabularRegressionForecaster(LinearRegression(fit_intercept=g("estimator__fit_intercept", True)),
+                                                     window_length=g("window_length", 3))
+    if fc not in STEPS:
+        raise ValueError(fc)
+    used, steps = set(), []
+    for name, dtok in STEPS[fc]:
+        tok = g(name, dtok)
+        if name in params:
+            used.add(name)
+        cls, args = tok_args(tok)
+        for key, v in params.items():
+            if key.startswith(name + "__"):
+                sub = key[len(name) + 2:]
+                if sub not in CTOR[cls]:
+                    raise ValueError("Invalid parameter %s for %s" % (sub, cls))
+                args[sub] = v
+                used.add(key)
+        steps.append((name, mkobj(cls, args)))
+    if fc in ("mux", "muxreal"):
+        used.add("selected_forecaster")
+    bad = set(params) - used
     if bad:
         raise ValueError("Invalid parameter %s" % sorted(bad))
-    g = params.get
-    if fc == "score":
-        return SF(a=g("a", 0), b=g("b", 0))
-    if fc == "ttf":
-        return TransformedTargetForecaster([("t", Shift(c=g("t__c", 1))), ("f", SF(a=g("f__a", 0), b=g("f__b", 0)))])
-    if fc == "mux":
-        return MultiplexForecaster([("x", SF(a=1, b=g("x__b", 0))), ("y", SF(a=2, b=g("y__b", 0)))],
-                                   selected_forecaster=g("selected_forecaster", "x"))
-    if fc == "naive":
-        return NaiveForecaster(strategy=g("strategy", "last"), sp=g("sp", 1), window_length=g("window_length", None))
-    if fc == "ttfnaive":
-        return TransformedTargetForecaster([("t", Shift(c=g("t__c", 1))),
-                                            ("f", NaiveForecaster(strategy=g("f__strategy", "last"),
-                                                                  window_length=g("f__window_length", 4)))])
-    if fc == "muxreal":
-        return MultiplexForecaster([("naive", NaiveForecaster(strategy=g("naive__strategy", "last"))),
-                                    ("poly", PolynomialTrendForecaster(degree=g("poly__degree", 1)))],
-                                   selected_forecaster=g("selected_forecaster", "naive"))
-    raise ValueError(fc)
+    if fc in ("ttf", "ttfnaive"):
+        return TransformedTargetForecaster(steps)
+    return MultiplexForecaster(steps, selected_forecaster=g("selected_forecaster", STEPS[fc][0][0]))
 
 
 def _r20(v):
@@ -308,16 +393,18 @@ def grid_arg(case):
     for d in case["grid"]:
         dd = {}
         for k_, v in d.items():
-            dd[k_] = [] if v == "~e" else ("oops" if v == "~s" else list(v))
+            dd[k_] = [] if v == "~e" else ("oops" if v == "~s" else [grid_obj(x) if is_objtok(x) else x for x in v])
         out.append(dd)
     if case.get("gridform") == "dict" and len(out) == 1:
         return out[0]
     return out
 
 
-def _dists(case):
+def _dists(case, objects=False):
+    """distributions of a randomized search; estimator tokens become fresh objects for the real tuner only"""
     import scipy.stats
-    return {k_: (scipy.stats.randint(v["randint"][0], v["randint"][1]) if isinstance(v, dict) else list(v))
+    return {k_: (scipy.stats.randint(v["randint"][0], v["randint"][1]) if isinstance(v, dict)
+                 else [grid_obj(x) if objects and is_objtok(x) else x for x in v])
             for k_, v in case["grid"][0].items()}
 
 
@@ -329,6 +416,7 @@ def unpredictable(case):
 
 
 def _plain(p):
+    p = {k_: CTX["objtok"].get(id(v), v) for k_, v in p.items()}
     return {k_: (int(v) if isinstance(v, (int, np.integer)) and not isinstance(v, bool) else v) for k_, v in p.items()}
 
 
@@ -372,6 +460,7 @@ def setup_ctx(case):
     CTX["n"] = case["n"]
     CTX["y"] = Y
     CTX["splitlog"] = []
+    CTX["objtok"], CTX["objs"] = {}, []
     cv = make_cv(case, False)
     try:
         folds = [(list(map(int, tr)), list(map(int, te))) for tr, te in cv.split(y)]
@@ -434,6 +523,11 @@ def drive(case, kind, y, Y, obj=None, params=None, dflt=None):
     fc, n, fitfh = case["fc"], case["n"], case.get("fitfh")
     if kind != "tuner":
         obj = build(fc, params)
+    XX = exog(case)
+    X = None if XX is None else XX.iloc[:n]
+
+    def xof(chunk):
+        return None if XX is None else XX.loc[chunk.index]
     ptr = n
     outs = []
     for op in case["ops"]:
@@ -442,10 +536,10 @@ def drive(case, kind, y, Y, obj=None, params=None, dflt=None):
             ptr = n
             if kind == "tuner":
                 CTX["splitlog"] = []
-                outs.append(tryc(lambda: (obj.fit(y, fh=fitfh), "ok")[1]))
+                outs.append(tryc(lambda: (obj.fit(y, X, fh=fitfh), "ok")[1]))
             elif kind == "ref":
                 obj = build(fc, params)
-                outs.append(tryc(lambda: (obj.fit(y, fh=fitfh), "ok")[1]))
+                outs.append(tryc(lambda: (obj.fit(y, X, fh=fitfh), "ok")[1]))
             else:
                 outs.append("-")
         elif o == "p":
@@ -463,15 +557,26 @@ def drive(case, kind, y, Y, obj=None, params=None, dflt=None):
                     yy = obj._y
                 return show_series(yy)
             outs.append(tryc(mem))
+        elif o == "x":
+            # probe of the exogenous data the (best) forecaster remembers, behind the real guard of a tuner method
+            def memx():
+                if kind == "tuner":
+                    obj.check_is_fitted("remembered exogenous data")
+                    xx = obj.best_forecaster_._X
+                else:
+                    obj.check_is_fitted()
+                    xx = obj._X
+                return "none" if xx is None else show_series(xx)
+            outs.append(tryc(memx))
         elif o == "u":
             chunk, ptr = batch(Y, ptr, op[1], *op[3:5])
-            outs.append(tryc(lambda: "self" if obj.update(chunk, **_upd(op[2], dflt)) is obj else "other"))
+            outs.append(tryc(lambda: "self" if obj.update(chunk, xof(chunk), **_upd(op[2], dflt)) is obj else "other"))
         elif o == "s":
             chunk, ptr = batch(Y, ptr, op[1], *op[4:6])
-            outs.append(tryc(lambda: show_series(obj.update_predict_single(chunk, fh=op[2], **_upd(op[3], dflt)))))
+            outs.append(tryc(lambda: show_series(obj.update_predict_single(chunk, fh=op[2], X=xof(chunk), **_upd(op[3], dflt)))))
         elif o == "U":
             chunk, ptr = batch(Y, ptr, op[1], *op[3:5])
-            outs.append(tryc(lambda: show_series(obj.update_predict(chunk, **_upd(op[2], dflt)))))
+            outs.append(tryc(lambda: show_series(obj.update_predict(chunk, X=xof(chunk), **_upd(op[2], dflt)))))
         else:
             raise ValueError(op)
     return outs
@@ -504,7 +609,9 @@ def reference(case):
         ent = {"params": p}
         try:
             f = build(case["fc"], p)
-            res = evaluate(f, make_cv(case, False), y, strategy=case["strategy"], scoring=make_metric(case))
+            XX = exog(case)
+            res = evaluate(f, make_cv(case, False), y, None if XX is None else XX.iloc[:case["n"]],
+                           strategy=case["strategy"], scoring=make_metric(case))
             col = res["test_" + metric_name(case)]
             ent["scores"] = [float(v) for v in col]
             ent["mean"] = float(col.mean())
@@ -533,6 +640,97 @@ def reference(case):
     return ref
 
 
+# ----------------------------------------------------------------------------- set_params of a composite (kind = "setp")
+# case = {"kind": "setp", "fc": composite family, "params": [[name, value | estimator token], ...] (the dict, in its order)}
+# real: clone(base forecaster).set_params(**params), read back component classes / constructor arguments;
+# the property's reading: it equals the composite constructed DIRECTLY with those parameters (`build`)
+CLSNAME = {"ScoreForecaster": "SF", "ShiftTransformer": "Sh", "NaiveForecaster": "N", "PolynomialTrendForecaster": "P"}
+
+
+def _args_tok(d, keys):
+    return ",".join("%s=%s" % (k_, vtok(d[k_])) for k_ in keys) or "-"
+
+
+def _comp_tok(name, cls, args):
+    return "%s@%s@%s" % (name, cls, _args_tok(args, CTOR[cls]))
+
+
+def config_tok(est):
+    """component classes / constructor arguments and own arguments of a composite"""
+    items = est.steps if hasattr(est, "steps") else est.forecasters
+    st = []
+    for name, c in items:
+        cls = CLSNAME.get(type(c).__name__, type(c).__name__)
+        st.append(_comp_tok(name, cls, c.get_params(deep=False)))
+    own = "selected_forecaster=%s" % vtok(est.selected_forecaster) if hasattr(est, "selected_forecaster") else "-"
+    return "steps=%s own=%s" % (";".join(st), own)
+
+
+def setp_line(case):
+    fc = case["fc"]
+    names = [nm for nm, _ in STEPS[fc]]
+    st = ";".join(_comp_tok(nm, *tok_args(t)) for nm, t in STEPS[fc])
+    own = "selected_forecaster=%s" % names[0] if fc in ("mux", "muxreal") else "-"
+    ps = []
+    for k_, v in case["params"]:
+        if is_objtok(v):
+            ps.append("s@" + _comp_tok(k_, *tok_args(v)))
+        elif "__" in k_:
+            nm, sub = k_.split("__", 1)
+            ps.append("n@%s@%s@%s" % (nm, sub, vtok(v)))
+        else:
+            ps.append("o@%s@%s" % (k_, vtok(v)))
+    return "C08 setp %s %s %s" % (st, own, ";".join(ps) or "-")
+
+
+def setp_real(case):
+    from sklearn.base import clone
+    K()
+    CTX["objtok"], CTX["objs"] = {}, []
+    try:
+        base = build(case["fc"], {})
+        real = {k_: (grid_obj(v) if is_objtok(v) else v) for k_, v in case["params"]}
+        return config_tok(clone(base).set_params(**real))
+    except Exception as e:
+        return cerr(e)
+
+
+def setp_oracle(case, out):
+    try:
+        want = config_tok(build(case["fc"], {k_: v for k_, v in case["params"]}))
+    except Exception as e:
+        want = cerr(e)
+    if out != want:
+        return [("cand:set_params-differs-from-direct-construction",
+                 "clone(forecaster).set_params(**%r): %s; constructed directly: %s" % ({k_: v for k_, v in case["params"]}, out, want))]
+    return []
+
+
+def _setp_case(rng):
+    fc = rng.choice(sorted(STEPS))
+    names = [nm for nm, _ in STEPS[fc]]
+    items = []
+    for nm in names:
+        cls = tok_args(dict(STEPS[fc])[nm])[0]
+        if rng.random() < 0.6:
+            tok = rng.choice(SWAP_POOLS[fc][nm])
+            if rng.random() < 0.08 and fc == "muxreal":
+                tok = rng.choice(SWAP_POOLS[fc][[x for x in names if x != nm][0]])
+            items.append((nm, tok))
+            cls = tok_args(tok)[0]
+        for sub in sorted(NESTED_POOLS[cls]):
+            if rng.random() < 0.5:
+                items.append(("%s__%s" % (nm, sub), rng.choice(NESTED_POOLS[cls][sub])))
+        if rng.random() < 0.04:
+            items.append(("%s__%s" % (nm, "zzz"), 1))
+    if fc in ("mux", "muxreal") and rng.random() < 0.5:
+        items.append(("selected_forecaster", rng.choice(names)))
+    if rng.random() < 0.04:
+        items.append((rng.choice(["zzz", "q__c"]), 1))
+    rng.shuffle(items)
+    return {"kind": "setp", "fc": fc, "params": [list(kv) for kv in dict(items).items()]}
+
+
 # ----------------------------------------------------------------------------- driver line
 def src_tok(case):
     if case["search"] == "rand":
@@ -556,6 +754,8 @@ def cv_tok(case):
 
 
 def to_line(case):
+    if case.get("kind") == "setp":
+        return setp_line(case)
     ref = reference(case)
     ents = []
     for t in sorted(ref["entries"]):
@@ -578,7 +778,7 @@ def make_tuner(case):
     if case["search"] == "rand":
         mode = case.get("rsmode", "int")
         rs = case["rs"] if mode == "int" else (None if mode == "none" else np.random.RandomState(case["rs"]))
-        return ForecastingRandomizedSearchCV(base, cv, _dists(case), n_iter=case["n_iter"], random_state=rs,
+        return ForecastingRandomizedSearchCV(base, cv, _dists(case, True), n_iter=case["n_iter"], random_state=rs,
                                              scoring=make_metric(case), strategy=case["strategy"], refit=case["refit"])
     return ForecastingGridSearchCV(base, cv, grid_arg(case), scoring=make_metric(case), strategy=case["strategy"],
                                    refit=case["refit"])
@@ -591,6 +791,8 @@ def folds_tok(folds):
 
 
 def run_real(case):
+    if case.get("kind") == "setp":
+        return setp_real(case)
     y, Y, _ = setup_ctx(case)
     try:
         g = make_tuner(case)
@@ -646,6 +848,8 @@ def _rats_close(a, b):
 def compare(real, model):
     if real == model:
         return True
+    if real.startswith("steps=") or model.startswith("steps="):
+        return False
     try:
         r, m = parse_out(real), parse_out(model)
     except Exception:
@@ -674,6 +878,8 @@ def _eq(a, b):
 
 
 def oracle(case, out):
+    if case.get("kind") == "setp":
+        return setp_oracle(case, out)
     fails = []
     if out.startswith("construct="):
         return fails
@@ -765,18 +971,29 @@ def oracle(case, out):
                 break
         else:
             if outs[i] != "E:notfitted":
-                fails.append(("norefit:%s-no-NotFittedError" % {"c": "cutoff", "p": "predict", "u": "update", "s": "update_predict_single", "U": "update_predict", "m": "remembered-data"}[o],
+                fails.append(("norefit:%s-no-NotFittedError" % {"c": "cutoff", "p": "predict", "u": "update", "s": "update_predict_single", "U": "update_predict", "m": "remembered-data", "x": "remembered-exog"}[o],
                               "refit=False, op %d %r answered %s" % (i, ops[i], outs[i][:120])))
     return fails
 
 
 def nontrivial(case, out):
+    if case.get("kind") == "setp":
+        return out.startswith("steps=") and len(case["params"]) >= 2
     return out.startswith("cands=") and "|" in out.split(" ")[0]
 
 
 def features(case, out):
+    if case.get("kind") == "setp":
+        p_ = {k_: v for k_, v in case["params"]}
+        return ["setp:fc=" + case["fc"], "setp:ok=%s" % out.startswith("steps="),
+                "setp:replaced+nested=%s" % any(is_objtok(v) and any(k2.startswith(k_ + "__") for k2 in p_) for k_, v in p_.items()),
+                "setp:nested-before-replacement=%s" % any(is_objtok(v) and any(k2.startswith(k_ + "__") for k2 in list(p_)[:i])
+                                                          for i, (k_, v) in enumerate(p_.items()))]
     f = ["fc=" + case["fc"], "search=" + case["search"] + (":" + case.get("rsmode", "int") if case["search"] == "rand" else ""), "metric=" + case["metric"], "gib=" + str(case["gib"]),
-         "refit=" + str(case["refit"]), "strategy=" + case["strategy"]]
+         "refit=" + str(case["refit"]), "strategy=" + case["strategy"], "X=%s" % (case.get("X") or 0),
+         "component-replaced=%s" % any(is_objtok(x) for d in case["grid"] for v in d.values() if isinstance(v, list) for x in v),
+         "replaced+nested=%s" % any(is_objtok(x) and any(k2.startswith(k_ + "__") for k2 in d) for d in case["grid"]
+                                    for k_, v in d.items() if isinstance(v, list) for x in v)]
     if out.startswith("cands="):
         R = parse_out(out)
         nc = len(R["cands"].split("|"))
@@ -879,6 +1096,9 @@ def _rand_grid(rng, fc):
         "ttfnaive": {"f__strategy": ["last", "mean"], "f__window_length": [2, 4], "t__c": [0, 1, 2]},
         "muxreal": {"selected_forecaster": ["naive", "poly"], "naive__strategy": ["last", "mean"], "poly__degree": [1, 2]},
     }[fc]
+    if fc in STEPS and rng.random() < 0.3:
+        # whole components as grid values (estimator objects), next to nested names of the same component
+        pools = dict(pools, **{name: SWAP_POOLS[fc][name] for name in rng.sample(sorted(SWAP_POOLS[fc]), rng.choice([1, 1, 2]))})
     nd = rng.choice([1, 1, 1, 2, 2, 3])
     grid = []
     for _ in range(nd):
@@ -979,6 +1199,112 @@ def _sampler_case(rng, mode):
 
 SHAPES = ["ov", "ov", "re", "past", "past", "empty", "fresh"]
 
+# estimator objects a named component can be replaced by (same arithmetic restrictions as the nested pools)
+SWAP_POOLS = {
+    "ttf": {"f": ["#SF.1.0", "#SF.3.1", "#SF.2.2", "#SF.4.0"], "t": ["#Sh.0", "#Sh.2", "#Sh.-3"]},
+    "mux": {"x": ["#SF.3.0", "#SF.3.2", "#SF.1.1"], "y": ["#SF.4.1", "#SF.2.2", "#SF.0.0"]},
+    "ttfnaive": {"f": ["#N.mean.2", "#N.last.4", "#N.mean.4", "#N.last.2"], "t": ["#Sh.0", "#Sh.2"]},
+    "muxreal": {"naive": ["#N.mean.None", "#N.last.None", "#N.mean.3"], "poly": ["#P.2", "#P.1"]},
+}
+NESTED_POOLS = {"SF": {"a": [1, 2, 3, 4], "b": [0, 1, 2]}, "Sh": {"c": [0, 1, 2, -3]},
+                "N": {"strategy": ["last", "mean"], "window_length": [2, 4]}, "P": {"degree": [1, 2]}}
+
+
+def _swap_case(rng):
+    """a grid / distribution that REPLACES a named component of a composite by another estimator and, mostly, also sets
+    nested parameters of that same component in the same candidate (other components' nested names may come along)"""
+    fc = rng.choice(["ttf", "ttf", "mux", "ttfnaive", "ttfnaive", "muxreal"])
+    n = rng.randrange(12, 22)
+    names = [nm for nm, _ in STEPS[fc]]
+    target = rng.choice(names if fc != "ttf" else ["f", "f", "t"])
+    d = {target: _pick(rng, SWAP_POOLS[fc][target], 1, 2)}
+    cls = tok_args(d[target][0])[0]
+    if rng.random() < 0.06 and fc == "muxreal":
+        d[target] = d[target] + [SWAP_POOLS[fc][[x for x in names if x != target][0]][0]]      # another class: nested names may not fit
+    if rng.random() < 0.85:
+        for sub in rng.sample(sorted(NESTED_POOLS[cls]), rng.choice([1, 1, 2]) if len(NESTED_POOLS[cls]) > 1 else 1):
+            d["%s__%s" % (target, sub)] = _pick(rng, NESTED_POOLS[cls][sub], 1, 2)
+    if rng.random() < 0.3:
+        other = rng.choice([x for x in names if x != target])
+        ocls = tok_args(dict(STEPS[fc])[other])[0]
+        sub = rng.choice(sorted(NESTED_POOLS[ocls]))
+        d["%s__%s" % (other, sub)] = _pick(rng, NESTED_POOLS[ocls][sub], 1, 2)
+    if fc in ("mux", "muxreal"):
+        d["selected_forecaster"] = rng.choice([[target], [target], list(names)])
+    items = list(d.items())
+    rng.shuffle(items)
+    d = dict(items)
+    grid = [d]
+    if rng.random() < 0.25:
+        grid.append(rng.choice([{}, {target: [SWAP_POOLS[fc][target][-1]]}]))
+    cv = _rand_cv(rng, n)
+    if fc == "ttfnaive":
+        cv["wl"] = max(cv["wl"], 4)
+        cv["iw"] = None
+    ops = [o for o in _rand_ops(rng)]
+    case = {"fc": fc, "search": "grid", "grid": grid, "cv": cv, "n": n, "origin": rng.choice([0, 2]), "yseed": rng.randrange(1000),
+            "strategy": rng.choice(["refit", "refit", "update"]), "refit": rng.random() < 0.85,
+            "fitfh": rng.choice([None, [1, 2]]), "ops": ops, "tab": {}}
+    if fc in CONTROLLED:
+        case["metric"], case["gib"] = "ctl", rng.random() < 0.4
+        if rng.random() < 0.4:
+            case["tab"] = _rand_tab(rng)
+    else:
+        case["metric"], case["gib"] = rng.choice([("mae", False), ("MAE", False), ("negmae", True)])
+    if rng.random() < 0.2 and len(grid) == 1:
+        case.update(search="rand", n_iter=rng.randrange(2, 6), rs=rng.randrange(100), rsmode=rng.choice(["int", "int", "inst"]))
+        case["ops"] = [["F"]] + [o for o in ops if o[0] != "F"][:4]
+    if rng.random() < 0.15:
+        case["X"] = 1
+    return case
+
+
+def _exog_case(rng):
+    """exogenous data handed to the tuner: fit(y, X, fh), update-type calls with the matching rows of X; base forecasters
+    whose fitted state and forecasts depend on X (score-controlled ones plain / in a pipeline / in a multiplexer, the
+    tabular reduction forecaster) next to ones that ignore it"""
+    fc = rng.choice(["score", "ttf", "mux", "reduce", "reduce", "naive", "muxreal"])
+    n = rng.randrange(14, 24)
+    if fc == "reduce":
+        grid = [rng.choice([{"window_length": _pick(rng, [2, 3, 4], 2, 3)},
+                            {"window_length": _pick(rng, [2, 3, 4], 1, 2), "estimator__fit_intercept": [True, False]}])]
+        cv = {"k": rng.choice("se"), "fh": rng.choice([[1], [1, 2]]), "wl": rng.randrange(8, 11), "step": rng.randrange(2, 4),
+              "iw": None, "sww": True}
+        fitfh = list(cv["fh"])
+    else:
+        grid = _rand_grid(rng, fc)
+        cv = _rand_cv(rng, n)
+        fitfh = rng.choice([None, [1, 2], [1]])
+    ops = [["F"]]
+    for _ in range(rng.randrange(1, 4)):
+        r = rng.random()
+        if r < 0.35:
+            ops.append(["p", rng.choice([None, fitfh]) if fc == "reduce" else rng.choice([[1], [1, 2], None])])
+        elif r < 0.5:
+            ops.append(["x"])
+        elif r < 0.75:
+            ops.append(["u", rng.randrange(1, 3), rng.choice([True, False, None])])
+            ops.append(["x"])
+        elif r < 0.85:
+            ops.append(["s", rng.randrange(1, 3), fitfh if fc == "reduce" else [1, 2], rng.choice([True, False, None])])
+        elif r < 0.92:
+            ops.append(["F"])
+        else:
+            ops.append(["c"])
+    ops += [["p", fitfh if fc == "reduce" else [1, 2]], ["c"]]
+    case = {"fc": fc, "search": "grid", "grid": grid, "cv": cv, "n": n, "origin": rng.choice([0, 3]), "yseed": rng.randrange(1000),
+            "strategy": rng.choice(["refit", "refit", "update"]), "refit": rng.random() < 0.85, "fitfh": fitfh, "ops": ops, "tab": {},
+            "X": rng.choice([1, 2])}
+    if fc in CONTROLLED:
+        case["metric"], case["gib"] = "ctl", rng.random() < 0.4
+        if rng.random() < 0.4:
+            case["tab"] = _rand_tab(rng)
+    else:
+        case["metric"], case["gib"] = rng.choice([("mae", False), ("negmae", True)])
+    if len(grid) == 1 and rng.random() < 0.5:
+        case["gridform"] = "dict"
+    return case
+
 
 def _revision_case(rng):
     """refit-delegation under update batches that are NOT plain fresh data (revised / re-stated overlap with the known
@@ -1065,12 +1391,25 @@ def gen_cases(tier, rng):
     # (B'') update batches that revise / re-state known data, lie before the cutoff or are empty
     for _ in range(30 if tier == "quick" else 260):
         cases.append(_revision_case(rng))
+    # (B3) component replacement (estimator objects as grid values) together with nested names of the replaced component
+    for _ in range(36 if tier == "quick" else 320):
+        cases.append(_swap_case(rng))
+    # (B4) exogenous data given to fit / update, forecasters that learn from it
+    for _ in range(36 if tier == "quick" else 320):
+        cases.append(_exog_case(rng))
+    # (B5) clone(composite).set_params(**params) on its own: replacement + nested names, any dict order, invalid names
+    for _ in range(120 if tier == "quick" else 1500):
+        cases.append(_setp_case(rng))
     # (C) malformed stream
     cases.extend(_malformed(rng))
     return cases
 
 
 def shrink(c):
+    if c.get("kind") == "setp":
+        for i in range(len(c["params"])):
+            yield dict(c, params=c["params"][:i] + c["params"][i + 1:])
+        return
     ops = c["ops"]
     for i in range(len(ops)):
         if ops[i][0] != "F" or sum(1 for o in ops if o[0] == "F") > 1:
